@@ -254,69 +254,227 @@ def recorded_call(co, fn, *args, **kw):
             co.__dict__[k] = v
 
 
-def call_impl(fn, uin, uout, container, pts, tables=None):
-    """one call of the real function on the n pairs `pts` in the given container form ->
-    ("ok", [float]*n) | ("err", class, message).  Non-finite values and wrong shapes are errors."""
+INT_FORMS = ("i4", "i8", "u2", "pyint")
+DTYPE = {"plain": "f8", "f4": "f4", "i4": "i4", "i8": "i8", "u2": "u2", "be": ">f8"}
+# forms a case may carry (key "form"; default "plain") -- how the four arguments are presented to the function:
+#   plain      python float / list of floats / float64 array, according to the container
+#   tuple      tuple of floats (container list)          pyint   python ints (scalar, list)
+#   0d         0-d float64 arrays (scalar)               npscalar  numpy float64 scalars (scalar)
+#   f4 i4 i8 u2  arrays (or numpy scalars) of that dtype; the values are exactly representable in it
+#   be         big-endian (non-native) float64 arrays    readonly  arrays with writeable=False
+#   strided    every second element of a larger array    reversed  negative-stride view
+#   alias      the SAME array object for ra1/ra2 (dec1/dec2) when their values are identical
+#   mixedforms list, tuple, array, strided array in one call
+# key "kw" (default "given"): given = units=[uin, uout]; tuple = units=(uin, uout); positional = 5th positional
+# argument; omitted = no units argument (deg/deg only); gcirc: omitted / getangle-false / getangle-true (first result)
+FORMS_ARRAY = ["f4", "i4", "i8", "u2", "be", "readonly", "strided", "reversed", "alias", "mixedforms"]
+FORMS_SCALAR = ["0d", "npscalar", "pyint", "f4", "i8"]
+FORMS_LIST = ["tuple", "pyint"]
+
+
+def f4_exact(x):
     import numpy as np
-    import esutil.coords as co
+    return float(np.float32(x)) == x
+
+
+def conform(p, form, uin):
+    """the pair with every coordinate exactly representable in the form's dtype (identical stays identical,
+    latitudes stay inside [-90, 90] degrees)"""
+    import numpy as np
+    if form == "f4":
+        q = [float(np.float32(x)) for x in p]
+        lim = 90.0 if uin == "deg" else HALF_PI
+        for i in (1, 3):
+            if abs(q[i]) > lim:
+                q[i] = math.copysign(float(np.nextafter(np.float32(abs(q[i])), np.float32(0.0))), q[i])
+        return q
+    if form in INT_FORMS:
+        lim = 90 if uin == "deg" else 1
+        q = [float(round(x)) for x in p]
+        for i in (1, 3):
+            q[i] = float(max(-lim, min(lim, q[i])))
+        if form == "u2":
+            turn = 360.0 if uin == "deg" else 6.0
+            q = [q[0] % turn, abs(q[1]), q[2] % turn, abs(q[3])]
+        return [x + 0.0 for x in q]          # no -0.0: an integer has no signed zero
+    return list(p)
+
+
+def build_args(container, form, pts):
+    """the four arguments (ra1, dec1, ra2, dec2) of one call on the n pairs `pts`"""
+    import numpy as np
     n = len(pts)
     cols = [[p[i] for p in pts] for i in range(4)]
+
+    def arr(c, fm):
+        if fm == "strided":
+            base = np.full(2 * len(c) + 1, 12.5)
+            base[1::2] = c
+            return base[1::2]
+        if fm == "reversed":
+            return np.array(c[::-1], dtype="f8")[::-1]
+        a = np.array(c, dtype=DTYPE.get(fm, "f8"))
+        if fm == "readonly":
+            a.flags.writeable = False
+        return a
+
     if container == "scalar":
         assert n == 1
-        args = [float(c[0]) for c in cols]
-    elif container == "list":
-        args = [list(c) for c in cols]
-    elif container == "bcast":                    # first point scalar, second point an array
-        args = [float(cols[0][0]), float(cols[1][0]), np.array(cols[2], dtype="f8"), np.array(cols[3], dtype="f8")]
-    else:                                         # len1 / len3 / array / long
-        args = [np.array(c, dtype="f8") for c in cols]
+        x = [c[0] for c in cols]
+        if form == "pyint":
+            return [int(v) for v in x]
+        if form == "0d":
+            return [np.array(float(v)) for v in x]
+        if form == "npscalar":
+            return [np.float64(v) for v in x]
+        if form == "f4":
+            return [np.float32(v) for v in x]
+        if form == "i8":
+            return [np.int64(v) for v in x]
+        return [float(v) for v in x]
+    if container == "list":
+        if form == "tuple":
+            return [tuple(c) for c in cols]
+        if form == "pyint":
+            return [[int(v) for v in c] for c in cols]
+        return [list(c) for c in cols]
+    if container == "bcast":                      # first point scalar, second point an array
+        return [float(cols[0][0]), float(cols[1][0]), arr(cols[2], form), arr(cols[3], form)]
+    if form == "mixedforms":
+        return [list(cols[0]), tuple(cols[1]), arr(cols[2], "plain"), arr(cols[3], "strided")]
+    args = [arr(c, form) for c in cols]
+    if form == "alias":
+        if cols[0] == cols[2]:
+            args[2] = args[0]
+        if cols[1] == cols[3]:
+            args[3] = args[1]
+    return args
+
+
+def invoke(fn, uin, uout, args, n, tables=None, kw="given"):
+    """one call of the real function -> ("ok", [float]*n) | ("err", class, message)"""
+    import numpy as np
+    import esutil.coords as co
     try:
         with warnings.catch_warnings(record=True) as wl:
             warnings.simplefilter("always")
+            if fn == "sphdist":
+                f = co.sphdist
+                if kw == "omitted" and (uin, uout) == ("deg", "deg"):
+                    pa, ka = list(args), {}
+                elif kw == "tuple":
+                    pa, ka = list(args), {"units": (uin, uout)}
+                elif kw == "positional":
+                    pa, ka = list(args) + [[uin, uout]], {}
+                else:
+                    pa, ka = list(args), {"units": [uin, uout]}
+            else:
+                f = co.gcirc
+                pa, ka = list(args), ({"getangle": False} if kw == "getangle-false" else
+                                      {"getangle": True} if kw == "getangle-true" else {})
             if tables is not None:
-                f, kw = (co.sphdist, {"units": [uin, uout]}) if fn == "sphdist" else (co.gcirc, {})
-                out, rec = recorded_call(co, f, *args, **kw)
+                out, rec = recorded_call(co, f, *pa, **ka)
                 if rec.bad:
                     ORC_STATS["inconsistent"] += 1
                 else:
                     ORC_STATS["recorded"] += 1
                     tables.update({k: [[u, v] for u, v in rec.t[k].values()] for k in ORC})
-            elif fn == "sphdist":
-                out = co.sphdist(*args, units=[uin, uout])
             else:
-                out = co.gcirc(*args)
+                out = f(*pa, **ka)
         WARN_COUNT["n"] += sum(1 for w in wl if issubclass(w.category, RuntimeWarning))
+        if fn == "gcirc" and kw == "getangle-true":
+            if not (isinstance(out, tuple) and len(out) == 2):
+                return ("err", "EOther", "getangle=True did not return a pair")
+            out = out[0]
         out = np.asarray(out)
         if out.shape != (n,):
             return ("err", "EOther", "shape %r for %d pair(s)" % (out.shape, n))
-        return ("ok", [float(x) for x in out])      # non-finite values are rejected inside Coq (Exec.qs)
+        if out.dtype != np.dtype("f8"):
+            return ("err", "EOther", "result dtype %s" % out.dtype)
+        return ("ok", out.tolist())                # non-finite values are rejected inside Coq (Exec.qs)
     except Exception as e:  # noqa
         return ("err", core.errclass(e), "%s: %s" % (type(e).__name__, str(e)[:160]))
 
 
+def call_impl(fn, uin, uout, container, pts, tables=None, form="plain", kw="given"):
+    return invoke(fn, uin, uout, build_args(container, form, pts), len(pts), tables, kw)
+
+
+def long_points(lg, uin, form="plain"):
+    """the n pairs of a long-array case, regenerated from its seed (exactly representable in the form's dtype)"""
+    import random
+    r = random.Random("C08-long/%s/%d" % (lg["seed"], lg["n"]))
+    return [conform(to_unit(gen_pair(r, r.choice(FAMILIES)), uin, False), form, uin) for _ in range(lg["n"])]
+
+
+def long_indices(n, r):
+    """positions of a long call that are judged inside Coq: both ends, both sides of every power-of-two block
+    boundary, and a random sample"""
+    idx = {0, 1, n - 2, n - 1}
+    b = 64
+    while b < n:
+        idx.update((b - 1, b, b + 1))
+        b *= 2
+    idx.update(r.sample(range(n), min(n, 96)))
+    return sorted(i for i in idx if 0 <= i < n)
+
+
 def run_case(c):
+    import numpy as np
     fn, uin, uout, cont, pts = c["fn"], c["uin"], c["uout"], c["container"], c["pts"]
+    form, kw, lg = c.get("form", "plain"), c.get("kw", "given"), c.get("long")
+    if lg is not None:
+        # one call on all n pairs (and one with the points exchanged, on the SAME array objects); the positions
+        # lg["idx"] (= c["pts"]) and the extremes of the whole output go to the checker
+        full = long_points(lg, uin, form)
+        idx = lg["idx"]
+        args = build_args("array", form, full)
+        m = invoke(fn, uin, uout, args, len(full), None, kw)
+        s = invoke(fn, uin, uout, [args[2], args[3], args[0], args[1]], len(full), None, kw)
+        ORC_STATS["too-long"] += 1
+        out = {"orc": None, "shifted": None}
+        out["main"] = ("ok", [m[1][i] for i in idx]) if m[0] == "ok" else m
+        out["swapped"] = ("ok", [s[1][i] for i in idx]) if s[0] == "ok" else s
+        if m[0] == "ok":
+            a = np.array(m[1])
+            out["ext"] = ("ok", [float(np.min(a)), float(np.max(a))])     # NaN propagates
+        else:
+            out["ext"] = m
+        rs = [call_impl(fn, uin, uout, "scalar", [p]) for p in pts]
+        bad = [x for x in rs if x[0] != "ok"]
+        out["elem"] = bad[0] if bad else ("ok", [x[1][0] for x in rs])
+        return out
     tabs = {} if len(pts) <= ORC_MAX_PAIRS else None
     if tabs is None:
         ORC_STATS["too-long"] += 1
-    out = {"main": call_impl(fn, uin, uout, cont, pts, tables=tabs)}
+    args = build_args(cont, form, pts)
+    out = {"main": invoke(fn, uin, uout, args, len(pts), tabs, kw)}
     out["orc"] = tabs if tabs else None            # None: no float-model comparison for this call
     sw = [[p[2], p[3], p[0], p[1]] for p in pts]
     if cont == "bcast":                           # the swap of a broadcast call: element-wise length-1 calls
-        rs = [call_impl(fn, uin, uout, "len1", [q]) for q in sw]
+        rs = [call_impl(fn, uin, uout, "len1", [q], form=form if form in DTYPE else "plain") for q in sw]
         bad = [x for x in rs if x[0] != "ok"]
         out["swapped"] = bad[0] if bad else ("ok", [x[1][0] for x in rs])
+    else:                                         # the SAME argument objects, exchanged
+        out["swapped"] = invoke(fn, uin, uout, [args[2], args[3], args[0], args[1]], len(pts), None, kw)
+    if c.get("elem") == "permuted" and cont not in ("scalar", "bcast") and len(pts) > 1:
+        # the same pairs in reverse order, in one call of the same form: element i must not depend on its position
+        o = call_impl(fn, uin, uout, cont, pts[::-1], form=form, kw=kw)
+        out["elem"] = ("ok", o[1][::-1]) if o[0] == "ok" else o
     else:
-        out["swapped"] = call_impl(fn, uin, uout, cont, sw)
-    other = "len1" if cont == "scalar" else "scalar"
-    rs = [call_impl(fn, uin, uout, other, [p]) for p in pts]
-    bad = [x for x in rs if x[0] != "ok"]
-    out["elem"] = bad[0] if bad else ("ok", [x[1][0] for x in rs])
+        other = "len1" if cont == "scalar" else "scalar"
+        rs = [call_impl(fn, uin, uout, other, [p]) for p in pts]   # plain float64, keyword given
+        bad = [x for x in rs if x[0] != "ok"]
+        out["elem"] = bad[0] if bad else ("ok", [x[1][0] for x in rs])
     out["shifted"] = None
     if c.get("shift") and uin == "deg":
         sp = shift_exact(pts, c["shift"])
+        if sp is not None and form == "f4" and not all(f4_exact(x) for q in sp for x in q):
+            sp = None
+        if sp is not None and form == "u2" and any(x > 65535 for q in sp for x in q):
+            sp = None
         if sp is not None and not (cont == "bcast" and c["shift"] != "ra2"):
-            out["shifted"] = call_impl(fn, uin, uout, cont, sp)
+            out["shifted"] = call_impl(fn, uin, uout, cont, sp, form=form, kw=kw)
             out["shifted_pts"] = sp
     return out
 
@@ -360,8 +518,11 @@ def ctables(orc):
 
 def full_args(c, out):
     orc = out.get("orc")
-    return "%s %s %s %s" % (FN_T[c["fn"]], "None" if not orc else "(Some %s)" % ctables(orc), UNIT[c["uin"]],
-                            props_args(c, out))
+    a = "%s %s %s %s" % (FN_T[c["fn"]], "None" if not orc else "(Some %s)" % ctables(orc), UNIT[c["uin"]],
+                         props_args(c, out))
+    if c.get("long") is not None:
+        a += " " + cres(out["ext"])
+    return a
 
 
 class Sep(Entry):
@@ -377,17 +538,67 @@ class Sep(Entry):
             return "deg", "rad"
         return r.choice([("deg", "deg")] * 5 + [("rad", "rad"), ("rad", "deg"), ("deg", "rad")] * 1)
 
-    def mk(self, ctx, fam, container, n, shift_ok=True, label=None):
+    def mk(self, ctx, fam, container, n, shift_ok=True, label=None, form="plain", kw="given", elem=None, units=None):
         r = ctx.rng
-        uin, uout = self.units(r)
+        uin, uout = units or self.units(r)
         snap = uin == "deg" and fam not in ("tiny",) and r.random() < 0.5
+        if form in INT_FORMS and fam in ("tiny", "same-direction"):
+            fam = "uniform"                           # integer coordinates cannot express these
         fams = FAMILIES if fam == "mixed" else [fam]
-        pts = [to_unit(gen_pair(r, r.choice(fams)), uin, snap) for _ in range(n)]
+        pts = [conform(to_unit(gen_pair(r, r.choice(fams)), uin, snap), form, uin) for _ in range(n)]
         if container == "bcast":
             pts = [[pts[0][0], pts[0][1], p[2], p[3]] for p in pts]
-        shift = r.choice(["ra1", "ra2", "both"]) if (snap and shift_ok) else None
-        return {"fn": self.fn, "uin": uin, "uout": uout, "container": container, "pts": pts, "shift": shift,
-                "family": label or ("%s/%s" % (fam, container))}
+        shift = r.choice(["ra1", "ra2", "both"]) if ((snap or form in INT_FORMS) and shift_ok and uin == "deg") else None
+        c = {"fn": self.fn, "uin": uin, "uout": uout, "container": container, "pts": pts, "shift": shift,
+             "family": label or ("%s/%s" % (fam, container))}
+        if form != "plain":
+            c["form"] = form
+        if kw != "given":
+            c["kw"] = kw
+        if elem:
+            c["elem"] = elem
+        return c
+
+    def mk_long(self, ctx, n, form="plain"):
+        r = ctx.rng
+        uin, uout = self.units(r)
+        lg = {"n": n, "seed": r.randrange(10 ** 9)}
+        lg["idx"] = long_indices(n, r)
+        full = long_points(lg, uin, form)
+        c = {"fn": self.fn, "uin": uin, "uout": uout, "container": "long", "pts": [full[i] for i in lg["idx"]],
+             "shift": None, "family": "mixed/long", "long": lg}
+        if form != "plain":
+            c["form"] = form
+        return c
+
+    def form_cases(self, ctx, k):
+        """the input forms of the audit (docs/reports/C08.md): every form with adversarial families"""
+        r, cs = ctx.rng, []
+        fams = ["poles", "antipodal", "large", "seam", "equal", "uniform", "tiny", "same-direction"]
+        kws = ["tuple", "positional", "omitted"] if self.fn == "sphdist" else ["getangle-false", "getangle-true"]
+        for rep_ in range(k):
+            for form in FORMS_ARRAY:
+                for cont, n in (("len1", 1), ("len3", 3), ("array", r.choice([2, 5, 8, 17, 33]))):
+                    cs.append(self.mk(ctx, r.choice(fams), cont, n, form=form, label="form:%s/%s" % (form, cont),
+                                      elem=r.choice([None, "permuted"])))
+                cs.append(self.mk(ctx, "mixed", "array", r.choice([6, 12, 40]), form=form, label="form:%s/mixed" % form,
+                                  elem="permuted"))
+            for form in ("f4", "i8", "be", "strided"):
+                cs.append(self.mk(ctx, r.choice(fams), "bcast", r.choice([1, 3, 6]), form=form, label="form:%s/bcast" % form))
+            for form in FORMS_SCALAR:
+                for _ in range(3):
+                    cs.append(self.mk(ctx, r.choice(fams), "scalar", 1, form=form, label="form:%s/scalar" % form))
+            for form in FORMS_LIST:
+                for n in (1, 3, 5):
+                    cs.append(self.mk(ctx, r.choice(fams), "list", n, form=form, label="form:%s/list" % form))
+            for kw in kws:                             # keyword omitted / given in another way; twice in a row on purpose
+                for cont, n in (("scalar", 1), ("len3", 3), ("array", 9), ("list", 2)):
+                    for _ in range(2):
+                        cs.append(self.mk(ctx, r.choice(fams), cont, n, kw=kw, label="kw:%s/%s" % (kw, cont),
+                                          units=("deg", "deg") if kw == "omitted" else None))
+            for _ in range(4):                        # plain arrays, permuted-order comparison
+                cs.append(self.mk(ctx, "mixed", "array", r.choice([4, 9, 33]), elem="permuted", label="permuted/array"))
+        return cs
 
     def cases(self, ctx, round=0):
         cs = []
@@ -408,8 +619,11 @@ class Sep(Entry):
         for _ in range(6 * k):                    # arrays mixing all families (both branches, zeros)
             cs.append(self.mk(ctx, "mixed", "len3", 3))
             cs.append(self.mk(ctx, "mixed", "array", ctx.rng.choice([6, 12, 40])))
-        for _ in range(ctx.n(2, 4)):              # long arrays
-            cs.append(self.mk(ctx, "mixed", "long", ctx.n(500, 4000), label="mixed/long"))
+        cs.extend(self.form_cases(ctx, ctx.n(1, 4) * (1 if round == 0 else 2)))
+        # long arrays: beyond numpy's internal buffer (8192 elements) and plausible block sizes, 2^k +- 1
+        sizes = ctx.n([511, 4097, 8193], [1023, 4095, 4097, 8191, 8193, 16385, 65537, 100000])
+        for i, n in enumerate(sizes):
+            cs.append(self.mk_long(ctx, n, form=["plain", "f4", "strided", "plain"][i % 4]))
         return cs
 
     def impl(self, c):
@@ -418,7 +632,7 @@ class Sep(Entry):
         return out
 
     def term(self, c, out):
-        return "v_full " + full_args(c, out)
+        return ("v_long " if c.get("long") is not None else "v_full ") + full_args(c, out)
 
     def show(self, c):
         # ([outs_ok; swapped identical; other container form identical; +360 within 2 tol],
@@ -435,7 +649,7 @@ class Sep(Entry):
     def classify(self, c, out, v):
         if v == 1:
             return "%s:float-model-differs" % self.fn
-        for k in ("main", "swapped", "elem", "shifted"):
+        for k in ("main", "swapped", "elem", "shifted", "ext"):
             o = out.get(k)
             if o is not None and o[0] == "err":
                 return "%s:%s-call-%s" % (self.fn, k, o[1])
@@ -528,7 +742,9 @@ def cert_pool(entries, ctx, budget):
                 if c["family"].startswith("corpus"):
                     fixed.append(it)
                 else:
-                    byfam.setdefault((c["fn"], c["family"].split("/")[0], c["uin"], c["uout"]), []).append(it)
+                    g = c["family"].split("/")[0]
+                    g = "forms" if g.startswith(("form:", "kw:", "permuted")) else g
+                    byfam.setdefault((c["fn"], g, c["uin"], c["uout"]), []).append(it)
             sh = out.get("shifted")
             if sh is not None and sh[0] == "ok" and n <= 40 and all(math.isfinite(x) for x in sh[1]):
                 i = r.randrange(n)
@@ -537,7 +753,7 @@ def cert_pool(entries, ctx, budget):
                      "out": sh[1][i], "family": "shifted+360/" + c["family"]})
     # round-robin over (function, family) groups, the families of the quantifier's adversarial list first, so that
     # every prefix of the pool (the first batch always runs) is spread over all of them; units are mixed inside a group
-    prio = ["poles", "tiny", "antipodal", "large", "seam", "uniform", "same-direction", "shifted+360", "mixed", "equal"]
+    prio = ["poles", "tiny", "antipodal", "large", "forms", "seam", "uniform", "same-direction", "shifted+360", "mixed", "equal"]
     groups = {}
     for k in sorted(byfam):
         groups.setdefault((prio.index(k[1]) if k[1] in prio else len(prio), k[1], k[0]), []).extend(byfam[k])
@@ -624,61 +840,6 @@ def retry_if_killed(ctx, step, what, attempts=3):
         time.sleep(10)
 
 
-C08_MODULES = ["Gen", "Model", "Spec", "Proofs", "Code", "SrcLib", "Src", "SrcProofs", "SrcLibF", "SrcF", "FProofs",
-               "Cond", "Final", "Properties", "Exec", "ExecF"]
-
-
-def coqchk_own(ctx):
-    """thorough tier: independent re-check (coqchk) of every module of THIS package, `-norec` (the compiled
-    libraries it imports -- stdlib, Interval, Flocq, Coquelicot, mathcomp -- are loaded, not re-checked: re-checking
-    them takes more than core.coqchk_step's 1800 s).  Obligation: accepted, nothing relies on type-in-type /
-    unsafe fixpoints / assumed positivity, no axiom declared under EsVerif."""
-    import re
-    import subprocess
-    cmd = ["timeout", "900", "coqchk", "-silent", "-o"] + core.COQFLAGS
-    for m in C08_MODULES:
-        cmd += ["-norec", "EsVerif.C08." + m]
-    r = subprocess.run(cmd, stdout=subprocess.PIPE, stderr=subprocess.STDOUT, text=True, cwd=core.COQDIR)
-    ctx.checker_cmds.append("coqchk -silent -o -Q coq/theories EsVerif " + " ".join("-norec EsVerif.C08." + m for m in C08_MODULES))
-    txt = r.stdout
-    sect, cur = {}, None
-    for line in txt.splitlines():
-        m = re.match(r"^\* (.*?):\s*(.*)$", line)
-        if m:
-            cur = m.group(1)
-            sect[cur] = [m.group(2).strip()] if m.group(2).strip() else []
-        elif cur is not None and line.strip():
-            sect[cur].append(line.strip())
-    unsafe = [(k, v[:5]) for k, v in sect.items()
-              if (k.startswith("Constants/Inductives relying") or k.startswith("Inductives whose positivity")) and v != ["<none>"]]
-    ours = [a for a in sect.get("Axioms", []) if a.startswith("EsVerif.")]
-    ok = r.returncode == 0 and not unsafe and not ours and "Axioms" in sect
-    ctx.obligation("coqchk -o -norec <16 modules of C08>: accepted; no type-in-type / unsafe fixpoints / assumed positivity; "
-                   "no axiom declared by this development", ok, txt[-600:])
-    if not ok:
-        ctx.violation("coqchk does not accept the modules of C08 (or they rely on switched-off checks / own axioms)",
-                      {"kind": "coqchk", "returncode": r.returncode, "unsafe": unsafe, "own_axioms": ours,
-                       "log_tail": txt[-2000:]}, found_input=False)
-    return ok
-
-
-def proof_step_c08(ctx):
-    """core.proof_step; in the thorough tier its coqchk step (recursive: re-checks Interval, Flocq, Coquelicot and the
-    stdlib Reals, > 1800 s) is replaced by coqchk_own (same obligation, this package's modules only)"""
-    old = os.environ.get("VERIF_NO_COQCHK")
-    os.environ["VERIF_NO_COQCHK"] = "1"
-    try:
-        ok = core.proof_step(ctx, "C08", core.ALLOW_INTERVAL, extra_targets=["theories/C08/ExecF.vo"])
-    finally:
-        if old is None:
-            del os.environ["VERIF_NO_COQCHK"]
-        else:
-            os.environ["VERIF_NO_COQCHK"] = old
-    if ok and ctx.tier == "thorough" and old is None:
-        ok = coqchk_own(ctx)
-    return ok
-
-
 def tag_classes(ctx):
     """one VIOLATION line per class of failing call (ctx.finish prints one line per distinct text)"""
     import json
@@ -733,7 +894,8 @@ def run(ctx, replay=None):
                                            "esutil/coords.py; theorems C08_source_is_model, C08_source_exact"},
                       found_input=False)
     # 2. theorems
-    proofs_ok = retry_if_killed(ctx, lambda: proof_step_c08(ctx), "proof-step")
+    proofs_ok = retry_if_killed(ctx, lambda: core.proof_step(ctx, "C08", core.ALLOW_INTERVAL,
+                                                             extra_targets=["theories/C08/ExecF.vo"]), "proof-step")
     if proofs_ok and gen_ok:
         c08_translate.remember_good(core.COQDIR)
     if not proofs_ok:
